@@ -304,6 +304,7 @@ pub fn by_family(fam: &str, seed: u64) -> Scenario {
         "shutdownA" => shutdown_a(seed),
         "floodBs" => flood_bs(seed),
         "floodBc" => flood_bc(seed),
+        "inlineA" => inline_a(seed),
         _ => mix_a(seed, false),
     }
 }
@@ -1373,5 +1374,135 @@ pub fn flood_bc(seed: u64) -> Scenario {
         }
         _ => {}
     }
+    s
+}
+
+// ---------------------------------------------------------------------------
+// C20: handle operations at the lock-release points of the connection task. Mode A; the application tasks park their
+// handles, and a script runs send_data / reset / drop / reserve / capacity / poll_data / release / drop / send_request on
+// them INSIDE the n-th read / write / flush callback of the same endpoint's transport - where h2 has released its locks
+// and another thread could get in. Short writes make every flush a series of callbacks. What has not fired by the 4th
+// quiescence is run from the executor, so every stream still ends.
+pub fn inline_a(seed: u64) -> Scenario {
+    let mut rng = StdRng::seed_from_u64(seed ^ 0x1_4C1_4E);
+    let mut s = Scenario::default();
+    s.name = format!("inlineA-{}", seed);
+    s.mode = "A".into();
+    s.sched.seed = seed;
+    s.aims = vec!["C20".into()];
+    s.coop = false;
+    s.ccfg = ep_cfg(&mut rng, false);
+    s.scfg = ep_cfg(&mut rng, true);
+    s.ccfg.enable_push = Some(false);
+    s.scfg.max_conc = None;
+    for c in [&mut s.ccfg, &mut s.scfg] {
+        // (bodies of tens of kilobytes: windows of a few octets would only make the runs long)
+        if c.iws.map(|v| v < 1000).unwrap_or(false) {
+            c.iws = Some(1000);
+        }
+        if c.conn_win.map(|v| v < 30000).unwrap_or(false) {
+            c.conn_win = None;
+        }
+    }
+    s.io.wmax = [pick(&mut rng, &[0usize, 300, 1000, 5000, 16393]), pick(&mut rng, &[0usize, 300, 1000, 5000, 16393])];
+    s.io.deliver = pick(&mut rng, &["all", "all", "rand"]).to_string();
+    let nreq = rng.gen_range(1..4u32);
+    let kinds = ["write", "write", "flush", "read", "any"];
+    let mut next_nth = |rng: &mut StdRng, last: &mut usize| -> usize {
+        *last += rng.gen_range(1..6);
+        *last
+    };
+    for i in 0..nreq {
+        let tag = i + 1;
+        let mut r = ReqProg::default();
+        r.tag = tag;
+        r.method = "POST".into();
+        r.ready = true;
+        r.eos = false;
+        r.hid = small_hid(&mut rng);
+        // --- client send half
+        let park_c = rng.gen_bool(0.8);
+        let mut ops = vec![];
+        if rng.gen_bool(0.5) {
+            ops.push(SendOp::Data { n: pick(&mut rng, &[1usize, 100, 5000, 20000]), eos: false });
+        }
+        if park_c {
+            ops.push(SendOp::Park);
+            let mut last = rng.gen_range(0..8);
+            let at = pick(&mut rng, &kinds).to_string();
+            for _ in 0..rng.gen_range(0..4) {
+                let act = match rng.gen_range(0..4) {
+                    0 => InlineAct::Capacity { tag },
+                    1 => InlineAct::Reserve { tag, n: pick(&mut rng, &[0usize, 1, 1000, 70000]) },
+                    _ => InlineAct::Data { tag, n: pick(&mut rng, &[0usize, 1, 300, 16384, 40000]), eos: false },
+                };
+                s.inline.push(InlineStep { ep: 0, at: at.clone(), nth: next_nth(&mut rng, &mut last), act });
+            }
+            let fin = match rng.gen_range(0..5) {
+                0 => InlineAct::Reset { tag, code: pick(&mut rng, &[0u32, 8, 2]) },
+                1 => InlineAct::DropSend { tag },
+                _ => InlineAct::Data { tag, n: pick(&mut rng, &[0usize, 5, 2000]), eos: true },
+            };
+            s.inline.push(InlineStep { ep: 0, at: at.clone(), nth: next_nth(&mut rng, &mut last), act: fin.clone() });
+            // clean-up at quiescence 4 for whatever did not fire (a no-op if the handle is gone; a second END_STREAM is refused by the library)
+            s.inline.push(InlineStep { ep: 0, at: "q".into(), nth: 4, act: InlineAct::Data { tag, n: 0, eos: true } });
+            s.inline.push(InlineStep { ep: 0, at: "q".into(), nth: 5, act: InlineAct::DropSend { tag } });
+        } else {
+            ops.push(SendOp::Data { n: pick(&mut rng, &[0usize, 10, 3000]), eos: true });
+        }
+        r.ops = ops;
+        // --- client receive half
+        if rng.gen_bool(0.5) {
+            r.read.script = vec![RecvOp::Park];
+            let mut last = rng.gen_range(0..8);
+            let at = pick(&mut rng, &kinds).to_string();
+            for _ in 0..rng.gen_range(1..5) {
+                let act = if rng.gen_bool(0.7) { InlineAct::PollData { tag } } else { InlineAct::Release { tag, n: pick(&mut rng, &[1usize, 100, 1000]) } };
+                s.inline.push(InlineStep { ep: 0, at: at.clone(), nth: next_nth(&mut rng, &mut last), act });
+            }
+            s.inline.push(InlineStep { ep: 0, at: at.clone(), nth: next_nth(&mut rng, &mut last), act: InlineAct::DropRecv { tag } });
+            s.inline.push(InlineStep { ep: 0, at: "q".into(), nth: 5, act: InlineAct::DropRecv { tag } });
+        }
+        s.reqs.push(r);
+        // --- server side of the same stream
+        let mut sops = vec![SendOp::Response { status: 200, hid: small_hid(&mut rng), eos: false }];
+        let mut read = ReadPol::default();
+        if rng.gen_bool(0.6) {
+            sops.push(SendOp::Park);
+            let mut last = rng.gen_range(0..8);
+            let at = pick(&mut rng, &kinds).to_string();
+            for _ in 0..rng.gen_range(0..3) {
+                s.inline.push(InlineStep { ep: 1, at: at.clone(), nth: next_nth(&mut rng, &mut last), act: InlineAct::Data { tag, n: pick(&mut rng, &[1usize, 300, 16384, 40000]), eos: false } });
+            }
+            let fin = match rng.gen_range(0..4) {
+                0 => InlineAct::Reset { tag, code: 8 },
+                1 => InlineAct::DropSend { tag },
+                _ => InlineAct::Data { tag, n: pick(&mut rng, &[0usize, 5, 2000]), eos: true },
+            };
+            s.inline.push(InlineStep { ep: 1, at: at.clone(), nth: next_nth(&mut rng, &mut last), act: fin });
+            s.inline.push(InlineStep { ep: 1, at: "q".into(), nth: 4, act: InlineAct::Data { tag, n: 0, eos: true } });
+            s.inline.push(InlineStep { ep: 1, at: "q".into(), nth: 5, act: InlineAct::DropSend { tag } });
+        } else {
+            sops.push(SendOp::Data { n: pick(&mut rng, &[0usize, 10, 3000, 30000]), eos: true });
+        }
+        if rng.gen_bool(0.4) {
+            read.script = vec![RecvOp::Park];
+            let mut last = rng.gen_range(0..8);
+            let at = pick(&mut rng, &kinds).to_string();
+            for _ in 0..rng.gen_range(1..5) {
+                let act = if rng.gen_bool(0.7) { InlineAct::PollData { tag } } else { InlineAct::Release { tag, n: pick(&mut rng, &[1usize, 100, 1000]) } };
+                s.inline.push(InlineStep { ep: 1, at: at.clone(), nth: next_nth(&mut rng, &mut last), act });
+            }
+            s.inline.push(InlineStep { ep: 1, at: at.clone(), nth: next_nth(&mut rng, &mut last), act: InlineAct::DropRecv { tag } });
+            s.inline.push(InlineStep { ep: 1, at: "q".into(), nth: 5, act: InlineAct::DropRecv { tag } });
+        }
+        s.srv.push(SrvProg { ops: sops, read, note: String::new() });
+    }
+    if rng.gen_bool(0.4) {
+        for k in 0..rng.gen_range(1..3u32) {
+            s.inline.push(InlineStep { ep: 0, at: pick(&mut rng, &kinds).to_string(), nth: rng.gen_range(2..30), act: InlineAct::SendRequest { tag: 50 + k } });
+        }
+    }
+    s.drop_sr_when_done = true;
     s
 }
